@@ -565,3 +565,91 @@ def g8_xsd_boolean(prog: Program, run: Run, rule: str, patterns: Sequence[str]) 
                           f"odxstr_to_bool knows {sorted(lits)} and maps {sorted(true_set)} to "
                           "True; xsd:boolean is true/1 -> True, false/0 -> False", h.loc)
     return n
+
+
+# --------------------------------------------------------------------- G9
+LIST_MUTATORS = {"append", "extend", "insert", "remove", "pop", "clear", "sort", "reverse",
+                 "__iadd__", "__imul__", "__setitem__", "__delitem__"}
+
+
+def g9_named_list_raw_mutation(prog: Program, run: Run, rule: str) -> int:
+    """ItemAttributeList keeps its name dictionary consistent only through the mutators it
+    overrides. Everything else `list` offers (`+=`, `*=`, item / slice assignment, `del l[i]`,
+    sort, reverse, ...) changes the list behind the dictionary's back, so no code of the package may
+    apply such an operation to an object declared as NamedItemList."""
+    from ..types import annotation_of
+    ial = prog.cls("ItemAttributeList")
+    nil = prog.cls("NamedItemList")
+    overridden = set(ial.methods) | set(nil.methods)
+    raw = LIST_MUTATORS - overridden
+    n = 0
+
+    def is_named(env, e: ast.AST) -> bool:
+        try:
+            a = annotation_of(env, e)
+        except Exception:  # noqa: BLE001
+            return False
+        if a is None:
+            # un-annotated `self.x = NamedItemList[...](...)` somewhere in the class
+            if isinstance(e, ast.Attribute) and isinstance(e.value, ast.Name) and \
+                    e.value.id == "self" and env.f.cls is not None:
+                for c in prog.mro(env.f.cls):
+                    for m in c.methods.values():
+                        for st in walk_no_nested(m.node):
+                            if isinstance(st, (ast.Assign, ast.AnnAssign)) and getattr(
+                                    st, "value", None) is not None:
+                                tg = st.targets[0] if isinstance(st, ast.Assign) else st.target
+                                if ast.unparse(tg) == ast.unparse(e) and isinstance(
+                                        st.value, ast.Call):
+                                    fn_ = st.value.func
+                                    if isinstance(fn_, ast.Subscript):
+                                        fn_ = fn_.value
+                                    if ast.unparse(fn_).split(".")[-1] in (
+                                            "NamedItemList", "ItemAttributeList"):
+                                        return True
+            return False
+        # the outermost type (through Optional[...]) must be the named list itself
+        while isinstance(a, ast.Subscript) and ast.unparse(a.value).split(".")[-1] == "Optional":
+            a = a.slice
+        head = a.value if isinstance(a, ast.Subscript) else a
+        if isinstance(head, ast.Constant) and isinstance(head.value, str):
+            return head.value.lstrip("'\"").startswith(("NamedItemList", "ItemAttributeList"))
+        return ast.unparse(head).split(".")[-1] in ("NamedItemList", "ItemAttributeList")
+    for f in prog.iter_functions():
+        if f.module.rel.endswith("nameditemlist.py"):
+            continue
+        env = None
+        for x in walk_no_nested(f.node):
+            recv = None
+            how = ""
+            if isinstance(x, ast.AugAssign) and isinstance(x.op, (ast.Add, ast.Mult)):
+                recv, how = x.target, "+=" if isinstance(x.op, ast.Add) else "*="
+                need = "__iadd__" if isinstance(x.op, ast.Add) else "__imul__"
+                if need not in raw:
+                    continue
+            elif isinstance(x, (ast.Assign, ast.Delete)):
+                for t in x.targets:
+                    if isinstance(t, ast.Subscript):
+                        recv, how = t.value, "item assignment" if isinstance(
+                            x, ast.Assign) else "del [...]"
+                if recv is not None and ("__setitem__" if isinstance(x, ast.Assign)
+                                         else "__delitem__") not in raw:
+                    recv = None
+            elif isinstance(x, ast.Call) and isinstance(x.func, ast.Attribute) and \
+                    x.func.attr in raw:
+                recv, how = x.func.value, f".{x.func.attr}()"
+            if recv is None:
+                continue
+            env = env or TypeEnv(prog, f)
+            if not is_named(env, recv):
+                continue
+            n += 1
+            run.violation(rule, f"{f.module.rel}:{f.qual}", f"raw-list-mutation-{how}",
+                          f"`{stmt_key(x) if isinstance(x, ast.stmt) else ast.unparse(x)}` "
+                          f"mutates a NamedItemList through `{how}`, which ItemAttributeList does "
+                          "not override: the items are added / moved without their names, so "
+                          "lookup by name, keys() and attribute access no longer see them",
+                          f"{f.module.rel}:{x.lineno}")
+    run.ok(rule, "package", f"no NamedItemList is mutated through an operation the class does not "
+           f"override ({sorted(raw)})", "odxtools/")
+    return n
